@@ -19,6 +19,7 @@ TRUSTED = ['rustc MIR construction (nightly)', 'pdb-facts driver', 'rule engine 
 
 
 def run(ctx):
+    shared.counted_changes_are_all_applied(ctx, '9c')
     F = ctx.F
     wp = ctx.body('btree::commit_overlay::BTreeChangeSet::write_plan')
     if wp:
